@@ -296,16 +296,17 @@ FTP_Leaves == <<[p |-> pA, vals |-> {I(1), Sv(<<Ref(pB)>>), Sv(<<Chunk("x"), Ref
                 [p |-> pC, vals |-> {I(3), I(4)}, extra |-> FALSE]>>
 
 \* family "combinators" (C05, C06, C03, C10, C11): every combinator over options / constants / bodies
+\* (the string in these universes is "1": it prints like the integer 1 but is a different value and a different key)
 FC_Kinds == {"val", "opt", "allopts", "pred", "apply", "bind", "switch", "case", "coalesce", "coll", "map", "fnapp"}
 FC_Paths == {pA, pB}
-FC_Consts == {I(1), Str("x"), Lv(<<I(0), I(1)>>)}
+FC_Consts == {I(1), Str("1"), Lv(<<I(0), I(1)>>)}
 FC_Fns == {"g"}
 FC_Bodies == {"f"}
-FC_Disp == <<I(1), Str("x")>>
+FC_Disp == <<I(1), Str("1")>>
 FC_Preds == {"eq", "truthy"}
 FC_MapPaths == {pA, pSX}
-FC_Leaves == <<[p |-> pA, vals |-> {I(0), I(1), Str("x"), Lv(<<I(0), I(1)>>)}, extra |-> FALSE],
-               [p |-> pB, vals |-> {I(1), Str("x"), Lv(<<Str("x")>>)}, extra |-> FALSE],
+FC_Leaves == <<[p |-> pA, vals |-> {I(0), I(1), Str("1"), Lv(<<I(0), I(1)>>)}, extra |-> FALSE],
+               [p |-> pB, vals |-> {I(1), Str("1"), Lv(<<Str("1")>>), Nv}, extra |-> FALSE],
                [p |-> pSX, vals |-> {I(1)}, extra |-> FALSE],
                [p |-> <<"Z">>, vals |-> {I(7)}, extra |-> TRUE]>>
 
@@ -339,7 +340,7 @@ FK_Paths == {pA, pB, pSX, <<"S">>}
 FK_Consts == {I(1), Lv(<<I(0), I(1)>>)}
 FK_Fns == {"g"}
 FK_Bodies == {"f", "none"}
-FK_Disp == <<I(1), Str("x")>>
+FK_Disp == <<I(1), Str("1")>>
 FK_Presets == {Dv([k \in {"A", "S"} |-> IF k = "A" THEN I(9) ELSE Dv([j \in {"X"} |-> I(8)])]), Dv([k \in {"A"} |-> I(4)])}
 FK_Cbs == {"cb", "none"}      \* the callback "none" returns None: a stored None must be served like any other value
 FK_BodiesB == {"f"}
@@ -347,7 +348,7 @@ FK_Effs == {<<>>, <<"e1">>}
 FKL_Effs == {<<>>, <<"le">>, <<"e1", "le">>}      \* "le": a LogEffect (family logeffects, C16)
 FK_Caches == {"mem", "none"}
 FK_MapPaths == {pA, pSX}
-FK_Leaves == <<[p |-> pA, vals |-> {I(1), Str("x")}, extra |-> FALSE],
+FK_Leaves == <<[p |-> pA, vals |-> {I(1), Str("1")}, extra |-> FALSE],
                [p |-> pB, vals |-> {I(1), I(2)}, extra |-> FALSE],
                [p |-> pSX, vals |-> {I(1), I(2)}, extra |-> FALSE],
                [p |-> <<"Z">>, vals |-> {I(7)}, extra |-> TRUE]>>
@@ -380,10 +381,10 @@ FD_Paths == {<<"K">>}
 FD_DispPaths == {<<"J">>}
 FD_Consts == {I(1), I(5)}
 FD_Bodies == {"f", "h"}
-FD_Disp == <<I(1), Str("x")>>
+FD_Disp == <<I(1), Str("1")>>
 FD_Cbs == {"", "cb"}
-FD_Leaves == <<[p |-> <<"K">>, vals |-> {I(1), Str("x"), I(2)}, extra |-> FALSE],
-               [p |-> <<"J">>, vals |-> {I(1), Str("x")}, extra |-> FALSE]>>
+FD_Leaves == <<[p |-> <<"K">>, vals |-> {I(1), Str("1"), I(2)}, extra |-> FALSE],
+               [p |-> <<"J">>, vals |-> {I(1), Str("1")}, extra |-> FALSE]>>
 
 \* family "classes" (C19): dataset classes = named members (a dict collection in the machine)
 FL_Kinds == {"val", "opt", "fnapp", "ds", "coll"}
@@ -416,6 +417,17 @@ FMS_Seq == <<"val", "opt", "opt", "switch", "map">>
 FMS_Leaves == <<[p |-> pA, vals |-> {I(1)}, extra |-> FALSE],
                 [p |-> pB, vals |-> {I(1), I(2)}, extra |-> FALSE]>>
 
+\* family "deepsections" (C01, C03, C08, C11): a whole section read under a pre-set that fixes a member two levels
+\* down while the caller supplies a sibling of that member
+pSTX == <<"S", "T", "X">>  pSTY == <<"S", "T", "Y">>  pSU == <<"S", "U">>
+FDS_Kinds == {"opt", "with", "cached", "fnapp", "ds", "dsof"}
+FDS_Paths == {<<"S">>, pSTY}
+FDS_Bodies == {"f"}
+FDS_Presets == {Dv([k \in {"S"} |-> Dv([j \in {"T"} |-> Dv([i \in {"X"} |-> I(8)])])])}
+FDS_Leaves == <<[p |-> pSTX, vals |-> {I(1)}, extra |-> FALSE],
+                [p |-> pSTY, vals |-> {I(3), I(4)}, extra |-> FALSE],
+                [p |-> pSU, vals |-> {I(5)}, extra |-> FALSE]>>
+
 \* family "illsorted" (C04, C10, C11): bare options over dictionaries in which a prefix of the key holds a scalar
 FI_Kinds == {"opt", "val"}
 FI_Paths == {pSX, <<"S">>, <<"S", "X", "Y">>}
@@ -436,13 +448,13 @@ FE_Leaves == <<[p |-> pA, vals |-> {I(1)}, extra |-> FALSE],
 FSL_Kinds == {"val", "opt", "coalesce", "switch"}
 FSL_Paths == {pA, pB}
 FSL_Consts == {Lv(<<I(0), I(1)>>), I(1)}
-FSL_Disp == <<I(1), Str("x")>>
-FSL_Leaves == <<[p |-> pA, vals |-> {I(0), I(1), Str("x")}, extra |-> FALSE],
-                [p |-> pB, vals |-> {I(1), Str("x")}, extra |-> FALSE]>>
+FSL_Disp == <<I(1), Str("1")>>
+FSL_Leaves == <<[p |-> pA, vals |-> {I(0), I(1), Str("1")}, extra |-> FALSE],
+                [p |-> pB, vals |-> {I(1), Str("1")}, extra |-> FALSE]>>
 
 \* family "overloads" (C02): an implementation dataset registered under one or two aliases (decorator form)
 FOV_Bodies == {"f"}
-FOV_Leaves == <<[p |-> <<"K">>, vals |-> {I(1), Str("x")}, extra |-> FALSE]>>
+FOV_Leaves == <<[p |-> <<"K">>, vals |-> {I(1), Str("1")}, extra |-> FALSE]>>
 
 \* family "cases" (C05, C12): case-when with constant and option-dependent, possibly raising predicates
 FCS_Kinds == {"val", "opt", "pred", "case"}
@@ -451,6 +463,15 @@ FCS_Consts == {I(1), Str("x")}
 FCS_Preds == {"eq", "truthy", "raise"}
 FCS_Leaves == <<[p |-> pA, vals |-> {I(0), I(1), Str("x")}, extra |-> FALSE],
                 [p |-> pB, vals |-> {I(1), I(2)}, extra |-> FALSE]>>
+
+\* family "caseseq" (C10, C06, C05): one fixed shape, exhaustively -- a case-when with two clauses whose conditions are
+\* predicates over a constant and over an option, so that a later condition may need an option the earlier, matching
+\* one does not
+FCQ_Seq == <<"opt", "val", "pred", "opt", "pred", "case">>
+FCQ_Consts == {I(1)}
+FCQ_Preds == {"eq"}
+FCQ_Leaves == <<[p |-> pA, vals |-> {I(0), I(1)}, extra |-> FALSE],
+                [p |-> pB, vals |-> {I(1)}, extra |-> FALSE]>>
 
 \* family "siblings" (C01, C08): derivatives of one dataset with different pre-set / default options
 FS_Kinds == {"opt", "fnapp", "ds", "dsof", "coll"}
